@@ -23,7 +23,9 @@ clause → theorem
 * the statements are in the order the theorems assume (facts) ......... `C10.source_order`
 * publishes only after whole stream + verify + flush/fsync; complete ... `C10.success_publishes_complete`, `C10.published_only_if`
 * producer failure / cut at every k / verify reject / short trailer .... `C10.failure_leaves_dest` with `C10.fault_at_any_k_fails`,
-                                                                         `C10.verify_reject_fails`, `C10.short_trailer_fails`, `C10.early_stop_fails`
+                                                                         `C10.verify_reject_fails`, `C10.short_trailer_fails`, `C10.early_stop_fails`,
+                                                                         `C10.write_fault_fails` (file system refuses a write), `C10.write_limit_not_reached`,
+                                                                         `C10.sync_fault_fails` (fsync reports an error)
 * killed at any moment: destination old or complete .................... `C10.crash_atomic`
 * a failed in-process pull leaves no temporary file .................... `C10.failure_leaves_dest` (third conjunct)
 * trailer held back across arbitrary write sizes ....................... `C10.trailer_hold_spec`
@@ -94,9 +96,24 @@ theorem success_publishes_complete (p : Puller) (s : Script) (codec : Codec) (fs
 /-- What "non-failing" means: `open` answered, tags compatible, a `last` chunk reached before any error
 or cut (within what the fill reads), the stream decodes, it is at least as long as the trailer, the
 caller's verification accepted, and the rename went through. -/
+theorem fit_some {lim : Option Nat} {x c : Bytes} (h : fit lim x = some c) :
+    c = x ∧ (∀ k, lim = some k → c.length ≤ k) := by
+  unfold fit at h
+  cases lim with
+  | none => simp only [Option.some.injEq] at h; exact ⟨h.symm, fun _ hk => by cases hk⟩
+  | some k =>
+    simp only at h
+    split at h
+    · rename_i hle
+      simp only [Option.some.injEq] at h
+      subst h
+      exact ⟨rfl, fun k' hk => by cases hk; exact hle⟩
+    · cases h
+
 theorem published_only_if (p : Puller) (s : Script) (codec : Codec) (c : Bytes)
     (h : expected p s codec = some c) :
     s.openOk = true ∧ tagsOk p s = true ∧ (p.verifies = true → s.verifyOk = true) ∧ s.renameOk = true ∧
+    s.syncOk = true ∧ (∀ k, s.writeFault = some k → c.length ≤ k) ∧
     ∃ wb lg, payloadN (if p.usesWriteFile then s.stop else none) s.wire = some wb ∧
       (if p.decodes && s.comp == .zstd then codec.dec wb else some wb) = some lg ∧
       (if p.hasTrailer then s.trailer ≤ lg.length ∧ c = lg.take (lg.length - s.trailer) else c = lg) := by
@@ -104,8 +121,8 @@ theorem published_only_if (p : Puller) (s : Script) (codec : Codec) (c : Bytes)
   split at h
   · rename_i hg
     simp only [Bool.and_eq_true, Bool.or_eq_true, Bool.not_eq_true'] at hg
-    obtain ⟨⟨⟨ho, ht⟩, hv⟩, hr⟩ := hg
-    refine ⟨ho, ht, ?_, hr, ?_⟩
+    obtain ⟨⟨⟨⟨ho, ht⟩, hv⟩, hr⟩, hs⟩ := hg
+    refine ⟨ho, ht, ?_, hr, hs, ?_⟩
     · intro hpv; rcases hv with hv | hv
       · rw [hpv] at hv; cases hv
       · exact hv
@@ -115,17 +132,20 @@ theorem published_only_if (p : Puller) (s : Script) (codec : Codec) (c : Bytes)
         split at h
         · cases h
         · rename_i lg hlg
-          refine ⟨wb, lg, hwb, hlg, ?_⟩
           split at h
           · rename_i hT
             split at h
             · rename_i hle
+              obtain ⟨hc, hk⟩ := fit_some h
+              refine ⟨hk, wb, lg, hwb, hlg, ?_⟩
               simp only [hT, if_true]
-              exact ⟨hle, by cases h; rfl⟩
+              exact ⟨hle, hc⟩
             · cases h
           · rename_i hT
+            obtain ⟨hc, hk⟩ := fit_some h
+            refine ⟨hk, wb, lg, hwb, hlg, ?_⟩
             simp only [hT]
-            cases h; rfl
+            exact hc
   · cases h
 
 /-- The peer's answers when the producer's chunks are `cs` and the fault `f` replaces the `k`-th answer. -/
@@ -209,6 +229,55 @@ theorem early_stop_fails (p : Puller) (s : Script) (codec : Codec) (cs : List By
   unfold expected
   simp only [hp, hs, if_true, h]
   split <;> rfl
+
+/-- `sync_all` reporting an error (the content is not known to be on disk) is a failing script. -/
+theorem sync_fault_fails (p : Puller) (s : Script) (codec : Codec) (hs : s.syncOk = false) :
+    expected p s codec = none := by
+  simp [expected, hs]
+
+/-- A write refused by the file system (ENOSPC / EFBIG / EDQUOT … after `k` bytes) anywhere inside the
+content — first byte, a chunk boundary, the last byte — is a failing script for every puller:
+`failure_leaves_dest` applies (Err, destination untouched, temp file removed). -/
+theorem write_fault_fails (p : Puller) (s : Script) (codec : Codec) (c : Bytes) (k : Nat)
+    (hc : expected p { s with writeFault := none } codec = some c) (hk : k < c.length) :
+    expected p { s with writeFault := some k } codec = none := by
+  rw [expected_eq] at hc ⊢
+  have e : streamContent p { s with writeFault := some k } codec = streamContent p { s with writeFault := none } codec := rfl
+  have t : tagsOk p { s with writeFault := some k } = tagsOk p { s with writeFault := none } := by
+    cases p <;> rfl
+  rw [e, t]
+  split at hc
+  · rename_i hg
+    rw [if_pos hg]
+    cases hsc : streamContent p { s with writeFault := none } codec with
+    | none => rfl
+    | some c0 =>
+      rw [hsc] at hc
+      simp only [Option.bind_some, fit, Option.some.injEq] at hc ⊢
+      subst hc
+      rw [if_neg (by omega)]
+  · cases hc
+
+/-- … and a limit the content fits under changes nothing. -/
+theorem write_limit_not_reached (p : Puller) (s : Script) (codec : Codec) (c : Bytes) (k : Nat)
+    (hc : expected p { s with writeFault := none } codec = some c) (hk : c.length ≤ k) :
+    expected p { s with writeFault := some k } codec = some c := by
+  rw [expected_eq] at hc ⊢
+  have e : streamContent p { s with writeFault := some k } codec = streamContent p { s with writeFault := none } codec := rfl
+  have t : tagsOk p { s with writeFault := some k } = tagsOk p { s with writeFault := none } := by
+    cases p <;> rfl
+  rw [e, t]
+  split at hc
+  · rename_i hg
+    rw [if_pos hg]
+    cases hsc : streamContent p { s with writeFault := none } codec with
+    | none => rw [hsc] at hc; cases hc
+    | some c0 =>
+      rw [hsc] at hc
+      simp only [Option.bind_some, fit, Option.some.injEq] at hc ⊢
+      subst hc
+      rw [if_pos hk]
+  · cases hc
 
 /-- Killed after any number `k` of its filesystem operations, the pull leaves the destination either
 exactly as it was or holding the complete expected content — the latter only for a non-failing script
@@ -378,6 +447,16 @@ example : (run Gen.Commit.steps .trailer { sOk with trailer := 6 } idCodec).ret 
 example : run Gen.Commit.steps .file { sOk with renameOk := false } idCodec =
     ⟨[.create, .write [1, 2], .write [3, 4, 5], .flush, .sync, .close, .renameFail, .remove], .err⟩ := by decide
 example : run Gen.Commit.steps .beveZst sOk idCodec = ⟨[], .err⟩ := by decide
+-- a write refused after 3 bytes: the short write, then the error; nothing published, temp file removed
+example : run Gen.Commit.steps .file { sOk with writeFault := some 3 } idCodec =
+    ⟨[.create, .write [1, 2], .write [3], .close, .remove], .err⟩ := by decide
+example : run Gen.Commit.steps .fileAsync { sOk with writeFault := some 0 } idCodec =
+    ⟨[.create, .write [], .close, .remove], .err⟩ := by decide
+example : expected .file { sOk with writeFault := none } idCodec = some [1, 2, 3, 4, 5] ∧ 3 < [1, 2, 3, 4, 5].length := by decide
+example : expected .file { sOk with writeFault := some 5 } idCodec = some [1, 2, 3, 4, 5] := by decide
+-- fsync fails after everything was written: nothing is renamed, the temp file is removed
+example : run Gen.Commit.steps .file { sOk with syncOk := false } idCodec =
+    ⟨[.create, .write [1, 2], .write [3, 4, 5], .flush, .sync, .close, .remove], .err⟩ := by decide
 -- crash points of a successful pull over an existing destination
 example : (runOps ⟨some [9], none⟩ (crash 6 (run Gen.Commit.steps .file sOk idCodec).ops)).dest = some [9] := by decide
 example : (runOps ⟨some [9], none⟩ (crash 7 (run Gen.Commit.steps .file sOk idCodec).ops)).dest = some [1, 2, 3, 4, 5] := by decide
